@@ -6,6 +6,7 @@
 // non-terminated buffers.  Signatures carry ".long_input" so that they are distinct from the short space.
 #include "c19_common.hpp"
 #include "c19_wrap.hpp"
+#include "c19_skip.hpp"
 #include <algorithm>
 #include <igris/buffer.h>
 #include <igris/util/string.h>
@@ -151,16 +152,7 @@ static void long_creader(const Str &s)
     }
     mc::outcome(mc::fmt("creader lines=%ld", lines));
     w_creader_del(r);
-    PL b2(s);
-    CS sym(" \n", 1);
-    r = w_creader_new(b2.p, b2.n);
-    mc::crash_context("C19.creader_skip.memory.long_input");
-    int cnt = w_creader_skip(r, sym.p);
-    mc::crash_context("C19.harness");
-    long cur = w_creader_curpos(r);
-    if (cnt < 0 || cnt > (long)b2.n || cur != cnt)
-        mc::violation("C19.creader_skip.extent.long_input", "%s: skipped %d, cursor %ld", escb(s).c_str(), cnt, cur);
-    w_creader_del(r);
+    check_creader_skip(s, ".long_input", [](const Str &x) { return escb(x); });
 }
 
 static void long_memmem(const Str &h, const Str &nd)
@@ -256,8 +248,10 @@ MC_INIT
             std::replace(l.begin(), l.end(), ' ', '\n');
             long_creader(l);
             long_creader(s);
+            std::replace(l.begin(), l.end(), 'a', '\0'); // NUL bytes inside the extent: never members of a symbol set
+            long_creader(l);
         }
-        mc::more_cases(15, 15);
+        mc::more_cases(16, 16);
     });
 
     // igris_memmem: needle lengths {1,2,255,256,257} placed at {0,1,254,255,256,257,end} or absent
